@@ -85,6 +85,9 @@ def plant(work, tag, a, b, scope, snake):
     elif scope == "enum":
         sdl = f"enum PairEnum {{ {a} {b} }}\ntype Query {{ f(e: PairEnum): Int }}\n"
         q = "query PairOp($e: PairEnum) { f(e: $e) }\n"
+    elif scope == "enum_default":   # the member name is written twice: in enums.py and where an input default refers to it
+        sdl = f"enum PairEnum {{ {a} {b} }}\ninput PairIn {{ e: PairEnum = {a} l: [PairEnum!] = [{b}, {a}] }}\ntype Query {{ f(i: PairIn): Int }}\n"
+        q = "query PairOp($i: PairIn) { f(i: $i) }\n"
     elif scope == "variables":      # two variables of one operation = two arguments of one generated method
         sdl = f"type Query {{ f({a}: Int, {b}: Int): Int }}\n"
         q = f"query PairOp(${a}: Int, ${b}: Int) {{ f({a}: ${a}, {b}: ${b}) }}\n"
@@ -182,7 +185,9 @@ def run(tier, work, replay=None):
              ("get_item", "getItem", "ops", True), ("in", "in_", "enum", True), ("from", "from_", "fields", True), ("from", "from_", "input", False),
              ("copy", "copy_", "fields", True), ("query", "_query", "fields", True), ("fooBar", "fooBaz", "fields", True), ("a", "b", "ops", True),
              ("_x", "x", "variables", False), ("_id", "id", "variables", False), ("a", "b", "variables", True), ("fooBar", "foo_bar", "variables", True),
-             ("fooBar", "foo_bar", "variables", False), ("in", "in_", "variables", False)]
+             ("fooBar", "foo_bar", "variables", False), ("in", "in_", "variables", False),
+             ("type", "match", "enum_default", True), ("case", "_", "enum_default", True), ("in", "None", "enum_default", True),
+             ("name", "value", "enum_default", True), ("RED", "async", "enum_default", False), ("from", "type", "enum_default", True)]
     rnd.shuffle(cand)
     cand = extra + cand[: (40 if q else 400)]
     outs = pmap(lambda t: (t[1], plant(work, str(t[0]), *t[1])), list(enumerate(cand)))
@@ -196,8 +201,8 @@ def run(tier, work, replay=None):
         elif fate == "merged":
             v.violation(feats, "silently_merged", o)
         sn, tr, rs = {"fields": (snake, True, True), "input": (snake, True, True), "ops": (True, False, False), "enum": (False, False, False),
-                      "variables": (snake, False, False)}[scope]
-        if scope == "enum":
+                      "variables": (snake, False, False), "enum_default": (False, False, False)}[scope]
+        if scope in ("enum", "enum_default"):
             continue        # enum members are not mapped by process_name (keyword suffix only): judged by fate alone
         pa = json.loads(run_py(["-c", f"import json; from ariadne_codegen.utils import process_name as p; print(json.dumps([p({a!r}, convert_to_snake_case={sn}, trim_leading_underscore={tr}, handle_pydantic_resrved_field_names={rs}), p({b!r}, convert_to_snake_case={sn}, trim_leading_underscore={tr}, handle_pydantic_resrved_field_names={rs})]))"]).stdout.strip().splitlines()[-1])
         traces.append([{"e": "case", "name": chars(a), "snake": sn, "trim": tr, "res": rs}, {"e": "map", "py": chars(pa[0])},
